@@ -104,6 +104,67 @@ VP_HARNESS(h_indexes_types)
   VP_WITNESS_IF(idx_w2, "a duplicated type");
 }
 
+/* ---- index VALUES: explicit lists and numeric interleavings, incl. duplicates and loop counts whose product overflows ------------------ */
+#ifndef IVMODE
+#define IVMODE 0      /* 0: pu:3(indexes=a,b,c) with a,b,c in 0..3; 1: pu:4(indexes=S1*N1:S2*N2[:1*BIG]) */
+#endif
+static unsigned iv_runs, iv_kept, iv_dropped;
+static unsigned put(char *s, unsigned p, const char *t) { for (unsigned i = 0; t[i]; i++) s[p++] = t[i]; return p; }
+static void values_case(unsigned a, unsigned b, unsigned c, unsigned d, unsigned e)
+{
+  static const char *const dig[4] = { "0", "1", "2", "3" };
+  static const char *const nbn[4] = { "1", "2", "4", "2147483648" };
+  static const char *const stp[2] = { "1", "2" };
+  char *s = malloc(96); VP_NONNULL(s);
+  unsigned p = 0, total;
+#if IVMODE == 0
+  (void) d; (void) e; total = 3;
+  p = put(s, p, "pu:3(indexes="); p = put(s, p, dig[a]); p = put(s, p, ","); p = put(s, p, dig[b]); p = put(s, p, ","); p = put(s, p, dig[c]); p = put(s, p, ")");
+#else
+  total = 4;
+  p = put(s, p, "pu:4(indexes="); p = put(s, p, stp[a]); p = put(s, p, "*"); p = put(s, p, nbn[b]); p = put(s, p, ":"); p = put(s, p, stp[c]); p = put(s, p, "*"); p = put(s, p, nbn[d]);
+  if (e) p = put(s, p, ":1*2147483648");
+  p = put(s, p, ")");
+#endif
+  s[p] = 0;
+  struct hwloc_synthetic_backend_data_s *data = malloc(sizeof(*data)); VP_NONNULL(data);
+  errno = 0;
+  int r = hwloc_backend_synthetic_init(data, s);
+  iv_runs++;
+  VP_CHECK(r == 0 || (r == -1 && errno == EINVAL), "indexes: the description is accepted or rejected with -1/EINVAL (never an abort)");
+  if (r) return;
+  unsigned pl = 0; while (pl < 4 && data->level[pl].attr.type != HWLOC_OBJ_PU) pl++;      /* machine, (a NUMA level is added when none is written), pu */
+  VP_CHECK(pl < 4, "indexes: the PU level exists"); if (pl >= 4) return;
+  unsigned *arr = data->level[pl].indexes.array;
+  if (arr) {
+    /* what is kept must give every object its own os_index: objects with equal indexes are merged and the level loses its width */
+    for (unsigned i = 0; i < total; i++) for (unsigned j = 0; j < i; j++) VP_CHECK(arr[i] != arr[j], "indexes: the indexes kept for a level are pairwise distinct (the level keeps the arity written in the string)");
+#if IVMODE == 0
+    VP_CHECK(arr[0] == a && arr[1] == b && arr[2] == c, "indexes: an explicit list is taken as written");
+#else
+    for (unsigned i = 0; i < total; i++) VP_CHECK(arr[i] < total, "indexes: an interleaving yields a permutation of 0..n-1");
+#endif
+    iv_kept++;
+  } else {
+#if IVMODE == 0
+    VP_CHECK(a == b || a == c || b == c, "indexes: a list of distinct values is honoured");
+#endif
+    iv_dropped++;
+  }
+}
+VP_HARNESS(h_indexes_values)
+{
+#if IVMODE == 0
+  unsigned x = (unsigned) vp_in_range(0, 3), y = (unsigned) vp_in_range(0, 3), z = (unsigned) vp_in_range(0, 3);
+  for (unsigned a = 0; a < 4; a++) for (unsigned b = 0; b < 4; b++) for (unsigned c = 0; c < 4; c++) if (x == a && y == b && z == c) values_case(a, b, c, 0, 0);
+#else
+  unsigned x = (unsigned) vp_in_range(0, 1), y = (unsigned) vp_in_range(0, 3), z = (unsigned) vp_in_range(0, 1), u = (unsigned) vp_in_range(0, 3), v = (unsigned) vp_in_range(0, 1);
+  for (unsigned a = 0; a < 2; a++) for (unsigned b = 0; b < 4; b++) for (unsigned c = 0; c < 2; c++) for (unsigned d = 0; d < 4; d++) for (unsigned e = 0; e < 2; e++) if (x == a && y == b && z == c && u == d && v == e) values_case(a, b, c, d, e);
+#endif
+  VP_WITNESS_IF(iv_kept >= 1, "an index specification honoured");
+  VP_WITNESS_IF(iv_dropped >= 1, "an invalid index specification ignored");
+}
+
 /* ---- export: snprintf contract and flag validation on the symmetric seed S1 --------------------------------------------- */
 #define CAP 64
 VP_HARNESS(h_export_cursor)
